@@ -8,11 +8,10 @@ Local Open Scope Q_scope.
 
 (* ---- truncated_svd(M, delta, rmax, left_ortho), algorithm='svd' ---- *)
 Record svd_answer := mkSvd { sv_U : arr2; sv_s : list Q; sv_Vh : arr2 }.     (* torch.linalg.svd(M): U (m x m), s, Vh (n x n) *)
-Definition zero_thresh : Q := 1 # 10000000000000.               (* svd[1][0] < 1e-13 *)
 Definition tsvd (M : arr2) (d2 : Q) (rmax : nat) (left_ortho : bool) (a : svd_answer) : arr2 * arr2 :=
   let m := m_r M in let n := m_c M in
   let s := sv_s a in
-  if Qle_bool (nth 0 s 0) zero_thresh && negb (Qeq_bool (nth 0 s 0) zero_thresh)
+  if Qle_bool (nth 0 s 0) 0        (* svd[1][0] == 0: the zero matrix *)
   then (tab2 m 1 (fun _ _ => 0), tab2 1 n (fun _ _ => 0))
   else
     let S := map (fun x => Qred (x * x)) s in
